@@ -64,7 +64,7 @@ def run_scenario(item):
                 held.remove(h)
             return held
 
-        for st in item['steps']:
+        for sti, st in enumerate(item['steps']):
             c = client(st['c'])
             held = steer(st['s']) if item.get('steer', True) else []
             if st['items'][0]['k'] == 'SP':
@@ -72,7 +72,7 @@ def run_scenario(item):
                 rep = c.query('PREPARE adhoc_%s AS SELECT 1' % st['c'].lower())
                 time.sleep(0.02)
                 errs = [e.get('M', '') for e in rep.errors]
-                out['recs'].append({'ev': 'sqlprep', 'c': st['c'], 'ok': rep.end == 'Z' and not errs,
+                out['recs'].append({'ev': 'sqlprep', 'i': sti, 'c': st['c'], 'ok': rep.end == 'Z' and not errs,
                                     'errors': [x[:80] for x in errs], 'cache': cache})
                 if rep.end != 'Z':
                     c.dead = True
@@ -112,7 +112,7 @@ def run_scenario(item):
                 if errs and c.eof_within(0.05):
                     closed = True
                     c.dead = True
-            out['recs'].append({'ev': 'batch', 'c': st['c'], 'items': st['items'], 'exec': ex, 'nerr': len(errs),
+            out['recs'].append({'ev': 'batch', 'i': sti, 'c': st['c'], 'items': st['items'], 'exec': ex, 'nerr': len(errs),
                                 'errors': [x[:80] for x in errs], 'closed': closed, 'cache': cache,
                                 'kinds': rep.kinds})
             for h in held:
@@ -124,25 +124,26 @@ def run_scenario(item):
 
 
 
-def _batch_needs_more_than_cache(it):
-    """Does one batch of the history refer to more distinct statements (the ones it parses and the ones its Bind/Close
-    name, as the client's names stood at that point) than the statement cache holds?  pgcat evicts - and closes on the
-    server - as it reads the batch, before any of it is sent (the recorded finding cache_lt_batch)."""
+def _first_batch_needing_more_than_cache(it):
+    """Index of the first batch of the history that refers to more distinct statements (the ones it parses and the ones
+    its Bind/Close name, as the client's names stood at that point) or names than the statement cache holds, or None.
+    pgcat evicts - and closes on the server - as it reads such a batch, before any of it is sent (the recorded finding
+    cache_lt_batch); what the client and the server connection hold afterwards may differ from the reference as well."""
     names = {}
-    for b in it['steps']:
+    for j, b in enumerate(it['steps']):
         mine = names.setdefault(b['c'], {})
         refs = set()
         for x in b['items']:
             if x['k'] == 'P':
                 mine[x['n']] = x.get('q')
                 refs.add(x.get('q'))
-            elif x['n'] in mine:
+            elif x['k'] in ('BE', 'C') and x['n'] in mine:
                 refs.add(mine[x['n']])
                 if x['k'] == 'C':
                     del mine[x['n']]
-        if len(refs) > it['cache']:
-            return True
-    return False
+        if len(refs) > it['cache'] or len({x['n'] for x in b['items']}) > it['cache']:
+            return j
+    return None
 
 def check_c08(prop, tier, seed):
     v = core.Verdict(prop, tier, seed)
@@ -195,6 +196,26 @@ def check_c08(prop, tier, seed):
                     sc += 1
                 names.add((b['c'], it['n']))
         sc += len({b['c'] for b in s}) + len({b['s'] for b in s})
+        # a batch that binds a statement the connection got in an earlier batch and then parses one the connection does
+        # not have yet: with a full per-connection cache the pooler has to evict - not the one this batch has just used
+        on_conn, names = {}, {}
+        for b in s:
+            have = on_conn.setdefault(b['s'], set())
+            mine = names.setdefault(b['c'], {})
+            used_old = False
+            new_here = set()
+            for it in b['items']:
+                if it['k'] == 'P':
+                    mine[it['n']] = it.get('q')
+                    if it.get('q') != 'bad' and it.get('q') not in have and it.get('q') not in new_here:
+                        if used_old:
+                            sc += 6
+                        new_here.add(it.get('q'))
+                elif it['k'] == 'BE' and mine.get(it['n']) in have:
+                    used_old = True
+                elif it['k'] == 'C':
+                    mine.pop(it['n'], None)
+            have |= new_here
         # a simple-protocol PREPARE (the pooler deallocates everything on that connection afterwards) between the Parse
         # of a statement and a later Bind of it on the same connection
         for i, b in enumerate(s):
@@ -209,6 +230,17 @@ def check_c08(prop, tier, seed):
     v.extra['programs_generated'] = len(uniq)
     items = [{'id': j + 1, 'steps': s, 'cache': [1, 2, 3, 1, 2, 10][j % 6], 'seed': seed * 19 + j, 'steer': j % 5 != 4}
              for j, s in enumerate(chosen)]
+    # enumerated (not sampled) family: two statements put on one connection by single-Parse batches, then a batch that binds
+    # the older one and parses a third - with a cache of two the eviction must not hit the statement the batch has just used
+    r4 = tlc.run_tlc('Gen_Prepared', 'Gen_Prepared_lru.cfg', workers=8, timeout=600)
+    if r4.rc != 0:
+        v.tool_error('Gen_Prepared (lru family) rc=%d %s' % (r4.rc, r4.errors()[:2]))
+    else:
+        v.add_mc('gen(lru family)', r4)
+        lru = {json.dumps(o, sort_keys=True): o for t, o in r4.prints if t == 'SCENARIO'}
+        v.extra['lru_family_programs'] = len(lru)
+        for k in sorted(lru):
+            items.append({'id': len(items) + 1, 'steps': lru[k], 'cache': 2, 'seed': seed * 19 + len(items), 'steer': True})
     results = core.run_parallel(run_scenario, items, workers=14)
     recs = []
     ok = []
@@ -234,10 +266,12 @@ def check_c08(prop, tier, seed):
         d = vi['detail']
         it = byid[vi['sc']]
         items_ = d.get('items', [])
-        if any(len({x['n'] for x in b['items']}) > it['cache'] for b in it['steps']) or _batch_needs_more_than_cache(it):
-            shape = 'cache_lt_batch'      # more distinct named statements in one batch than the cache holds
+        at = d.get('step', len(it['steps']))
+        first_big = _first_batch_needing_more_than_cache(it)
+        if first_big is not None and at >= first_big:
+            shape = 'cache_lt_batch'      # this or an earlier batch needs more statements than the cache holds
         elif any(b['c'] == d.get('client') and any(x['k'] == 'P' and x.get('q') == 'bad' and any(y['k'] == 'C' for y in b['items'][i + 1:])
-                                                     for i, x in enumerate(b['items'])) for b in it['steps']):
+                                                     for i, x in enumerate(b['items'])) for b in it['steps'][:at + 1]):
             shape = 'close_behind_error'  # this client sent a Close behind a failing Parse in one batch (a server skips it)
         elif any(x['k'] == 'P' and x.get('q') == 'bad' for b in it['steps'] for x in b['items']):
             shape = 'after_error_in_batch'
